@@ -516,6 +516,34 @@ def r_fromf64(F, cfg):
     return R
 
 
+def r_nowiden(F, cfg):
+    """No f32 value is widened to f64 anywhere in the crate (zero-count rule with a positive control).
+
+    Every f64 constant and twiddle of the library is computed in f64; an `x as f64` applied to an f32 value (for example
+    `std::f32::consts::FRAC_1_SQRT_2 as f64` pasted into an f64 kernel) yields an f64 that is exact to 24 bits only --
+    a relative error of 1e-8, eight orders of magnitude above the bound -- and nothing downstream can tell."""
+    R = Result("R-NOWIDEN", "no float-to-float cast from f32 to f64 in non-test crate code")
+    n = 0
+    for b in F.bodies.values():
+        for bi, si, node in b.iter_nodes():
+            if node["k"] == "=" and node["r"]["k"] == "cast" and node["r"]["ck"] == "FloatToFloat":
+                n += 1
+                to = F.ts(node["r"]["to"])
+                o = node["r"]["o"]
+                frm = None
+                if "p" in o and len(o["p"]) == 1:
+                    frm = b.tys(o["p"][0])
+                elif "c" in o and "t" in o["c"]:
+                    frm = F.ts(o["c"]["t"])
+                if to == "f64" and frm in ("f32", None):
+                    R.violation("nowiden:%s" % b.name, b.where(node), "%s widens an %s value to f64: the result carries only f32 precision" % (b.name, frm or "unknown-width float"))
+                else:
+                    R.ok({"fn": b.name, "cast": "%s -> %s" % (frm, to)}, nontrivial=False, sample_cap=4)
+    R.metric("float_to_float_casts", n)
+    R.instances += 1
+    return R
+
+
 REDUCERS = ("Iterator::sum", "Iterator::product", "Iterator::fold", "Iterator::reduce", "Sum::sum", "Product::product",
             "Iterator::try_fold", "DoubleEndedIterator::rfold")
 
@@ -604,4 +632,36 @@ def r_ringops(F, cfg):
     for tr, k in sorted(seen.items()):
         R.ok({"trait": tr, "uses": k, "class": RING_TRAITS[tr]}, nontrivial=True, sample_cap=20)
     R.metric("element_trait_calls", n)
+    # values of a generic element type are never manufactured from raw bytes: `ptr::write_bytes`, `mem::zeroed`,
+    # `MaybeUninit::zeroed` produce the all-zero bit pattern, which is the additive zero only for types that happen to be
+    # laid out that way (f32/f64), not for an arbitrary FftNum
+    RAW = ("ptr::write_bytes", "::write_bytes", "mem::zeroed", "MaybeUninit::<T>::zeroed", "intrinsics::write_bytes")
+    nraw = 0
+    for b in F.bodies.values():
+        for bi, t in b.calls():
+            c = F.callee_of(t)
+            if not c or c.get("local", True):
+                continue
+            if not any(c["p"].endswith(x) for x in RAW):
+                continue
+            tys = [F.types[a] for a in c.get("a", []) if isinstance(a, int)]
+
+            def generic_elem(ty, depth=0):
+                if depth > 4:
+                    return False
+                if ty["k"] == "param":
+                    return True
+                if ty["k"] == "adt":
+                    return any(isinstance(a, int) and generic_elem(F.types[a], depth + 1) for a in ty.get("a", []))
+                if ty["k"] in ("array", "slice", "ref", "ptr"):
+                    return generic_elem(F.types[ty["t"]], depth + 1)
+                return False
+            nraw += 1
+            if any(generic_elem(ty) for ty in tys):
+                R.violation("ringops:rawbytes:%s:%s" % (b.name, c["p"].rsplit("::", 1)[-1]), b.where(t),
+                            "%s builds values of a generic element type from raw bytes with %s: the all-zero bit pattern is the ring's zero only for float-like layouts"
+                            % (b.name, c["p"]))
+            else:
+                R.ok({"fn": b.name, "raw_byte_constructor": c["p"], "on": [x["s"] for x in tys]}, nontrivial=False, sample_cap=4)
+    R.metric("raw_byte_constructor_calls", nraw)
     return R
